@@ -320,6 +320,9 @@ func (m *C12Mon) OnBlock(blk *hist.Block) []Finding {
 		}
 		*obs = rest
 		for a, p := range paid {
+			if p.Sign() != 0 {
+				out = append(out, Finding{"COUNT", "observed:" + kind + "-payment-matched-against-obligations", ""})
+			}
 			d := get(due, a)
 			if p.Cmp(d) != 0 && p.Sign() != 0 {
 				out = append(out, Finding{"C12", "C12/" + kind + "/paid-amount-not-due", fmt.Sprintf("block %d: BeginBlock paid %s to %s for matured %ss, the amount due at exactly this height (height of the request + maturity %d) is %s", blk.H, p, a, kind, mat, d)})
